@@ -3,6 +3,8 @@ import GeosModel.Model.WKB.Spec
 namespace GeosModel.WKB
 open GeosModel
 
+variable {arc : ArcOracle}
+
 theorem byteAt_toNat (n k : Nat) : (byteAt n k).toNat = n / 256 ^ k % 256 := by
   simp [byteAt]
 
